@@ -63,3 +63,16 @@ Definition KP (signed : bool) (p : Z) (d : list Z) (P B : list (list float)) (ac
 Definition KPanic (signed : bool) (p : Z) (d : list Z) : case :=
   {| c_in := {| i_signed := signed; i_pre := p; i_data := d; i_proj := None |};
      c_accepted := false; c_out := OPanic |}.
+
+(* A generated case is a HISTORY: records analysed one after the other on ONE DataStreamProcessor (with
+   reconfigurations of the pulse lengths, projectors loaded / replaced / rejected / dropped in between,
+   and longer or shorter pre-triggers than before).  The model [analyze] and the checker are functions
+   of the record (and of the matrices loaded for it) alone, so evaluating every step against them states
+   that the results must not depend on what the processor analysed or how it was configured before.
+   Result: (code of the first bad step, its index), or (0, -1). *)
+Fixpoint verdict_from (i : Z) (h : list case) : Z * Z :=
+  match h with
+  | [] => (0, -1)
+  | c :: r => let v := verdict c in if fst v =? 0 then verdict_from (i + 1) r else (fst v, i)
+  end.
+Definition verdict_hist (h : list case) : Z * Z := verdict_from 0 h.
